@@ -154,14 +154,15 @@ _OPTS = {
 
 # version -> ordered option keys
 _VERSIONS = {
-    "base": ["FOO_BAR", "B", "N", "S", "U", "NEWP", "NEWI", "M", "P_RM", "T"],
+    # (T is NOT the last option: the option written last must be able to go to n alone, see CONFIGS_QUICK[6])
+    "base": ["FOO_BAR", "B", "N", "S", "U", "NEWP", "NEWI", "M", "T", "P_RM"],
     # option added (with an alias), option with alias removed, option without alias removed, option retyped
-    "all": ["FOO_BAR", "B", "N:string", "S", "U", "NEWI", "M", "ADDED", "T"],
-    "add": ["FOO_BAR", "B", "N", "S", "U", "NEWP", "NEWI", "M", "P_RM", "T", "ADDED"],
+    "all": ["FOO_BAR", "B", "N:string", "S", "U", "NEWI", "M", "T", "ADDED"],
+    "add": ["FOO_BAR", "B", "N", "S", "U", "NEWP", "NEWI", "M", "T", "P_RM", "ADDED"],
     # NEWP (plain alias, bool), M (plain alias, int), NEWI (inverted alias), T (plain alias, string with the text n) removed
     "rm_alias": ["FOO_BAR", "B", "N", "S", "U", "P_RM"],
-    "rm_plain": ["FOO_BAR", "B", "N", "S", "NEWP", "NEWI", "M", "T"],  # U and P_RM removed (no aliases)
-    "retype": ["FOO_BAR", "B", "N:string", "S", "U", "NEWP", "NEWI", "M", "P_RM", "T"],
+    "rm_plain": ["FOO_BAR", "B", "N", "S", "NEWP", "NEWI", "T", "M"],  # U and P_RM removed (no aliases)
+    "retype": ["FOO_BAR", "B", "N:string", "S", "U", "NEWP", "NEWI", "M", "T", "P_RM"],
     # text world: with / without the string option
     "txt": ["G", "T:g", "K"],
     "txt_rm": ["G", "K"],
